@@ -15,6 +15,18 @@ from props.zenc_common import Leaves
 
 LOCAL = (2021, 3, 4, 5, 6, 7)
 ZONES = ['UTC', 'New_York', 'Kolkata', 'GMT-5', 'St_Johns', 'Tokyo']
+RT_ZONES = ['America/St_Johns', 'Australia/Lord_Howe', 'America/New_York', 'Asia/Kathmandu', 'Europe/London', 'Pacific/Chatham']
+# real offset transitions (UTC seconds) of those zones, used ONLY to lift a solver verdict "some rule table breaks the round
+# trip" to a natively reproducible witness (the solver's own instant is generally not at a transition of the real table)
+def _ts(y, m, d, hh, mi): return ch.days_from_civil(y, m, d) * 86400 + hh * 3600 + mi * 60
+TRANSITIONS = {
+    'America/New_York': [_ts(2021, 3, 14, 7, 0), _ts(2021, 11, 7, 6, 0)],
+    'Europe/London': [_ts(2021, 3, 28, 1, 0), _ts(2021, 10, 31, 1, 0)],
+    'Australia/Lord_Howe': [_ts(2021, 4, 3, 15, 0), _ts(2021, 10, 2, 15, 30)],
+    'America/St_Johns': [_ts(2021, 3, 14, 5, 30), _ts(2021, 11, 7, 4, 30)],
+    'Pacific/Chatham': [_ts(2021, 4, 3, 14, 0), _ts(2021, 9, 25, 14, 0)],
+    'Asia/Kathmandu': [_ts(1985, 12, 31, 18, 30)],
+}
 IDS = ['UTC', 'Europe/London', 'America/New_York', 'America/Indiana/Knox', 'America/Argentina/Buenos_Aires', 'Etc/GMT+5', 'Asia/Kolkata', 'US/Eastern', 'GB']
 
 
@@ -24,6 +36,14 @@ def templates(ctx):
     for z in ZONES[1:4 if ctx.quick() else 6]: T.append({'name': 'zinc+' + z, 'mode': 'zinc', 'tz': z})
     for k in range(1, 10): T.append({'name': 'zinc-frac%d' % k, 'mode': 'frac', 'digits': k})
     for i in IDS: T.append({'name': 'short:' + i, 'mode': 'short', 'id': i})
+    # round trips through both codecs in named zones whose rule table is an uninterpreted function of the instant
+    import random
+    for z in RT_ZONES[:2 if ctx.quick() else len(RT_ZONES)]:
+        # quick: 12 of the 105 quarter-hour offsets (seed-rotated, always with the extremes and zero); thorough: all
+        ks = None
+        if ctx.quick(): ks = sorted(set([0, 48, 104] + random.Random(ctx.seed * 7 + len(z)).sample(range(105), 9)))
+        T.append({'name': 'rt-zinc:' + z, 'mode': 'rt', 'codec': 'zinc', 'id': z, 'ks': ks})
+        T.append({'name': 'rt-hayson:' + z, 'mode': 'rt', 'codec': 'hayson', 'id': z, 'ks': ks})
     return T
 
 
@@ -71,6 +91,33 @@ def path(ex, t):
         r, rd = zinc.parse_value(ex, text)
         st['res'] = r; st['zinc'] = True
         return st
+    if t['mode'] == 'rt':
+        # ANY instant (symbolic calendar fields, years 0000-9999, 0 or 3 fraction digits) with ANY offset the zone's rule may
+        # give there (a multiple of 15 minutes between -12:00 and +14:00): the rule table is an uninterpreted function, so the
+        # verdict covers every table, i.e. both sides of every transition
+        from props.zenc_common import sym_date, sym_time, encode as zenc
+        from mirsym.hv import sym_eq
+        y, mo, d = sym_date(ex, l); hh, mi, ss, _ = sym_time(ex, l)
+        # the property's range: before 1980 zones have local-mean-time offsets with seconds, which +-hh:mm cannot carry
+        ex.assume(z3.And(z3.UGE(ch.zz(y), 1980), z3.ULE(ch.zz(y), 2060)))
+        ks = t.get('ks') or list(range(105))
+        k = ks[ex.pick(len(ks))] - 48          # the offset is forked (its hh:mm text defeats z3 when symbolic), the instant stays symbolic
+        ns = 123000000 if ex.pick(2) else 0
+        v = h.dt(y, mo, d, hh, mi, ss, ns, k * 900, t['id'])
+        st['orig'] = v; st['rt'] = True
+        if t['codec'] == 'zinc':
+            r, sink = zenc(ex, v)
+            st['enc'] = r; st['textb'] = sink.items
+            if r.variant != 0: return st
+            dec, rd = zinc.parse_value(ex, list(sink.items))
+            st['dec'] = dec
+        else:
+            from props import hayson_common as hc
+            kind, tree = hc.encode(ex, v)
+            st['enc_kind'] = kind
+            if kind != 'ok': return st
+            st['dec'] = hc.decode(ex, tree, 'Value')
+        return st
     if t['mode'] == 'short':
         v = h.dt(*(LOCAL + (0, 0, t['id'])))
         d = v.fields[0]
@@ -85,6 +132,15 @@ def post(ex, t, r):
     s = {'kind': r.kind, 'detail': r.detail, 'where': r.where, 'mode': t['mode'], 'tz': t.get('tz')}
     viol = None; cond = None
     if r.kind in ('panic', 'bound'): viol = r.kind
+    elif t['mode'] == 'rt':
+        from mirsym.hv import sym_eq
+        dec = st.get('dec')
+        if dec is None: viol = 'encode-error'
+        elif dec.variant != 0: viol = 'decode-error'
+        else:
+            eq = sym_eq(ex, st['orig'], dec.fields[0])
+            if eq is False: viol = 'value-differs'
+            elif eq is not True and ex.sat(z3.Not(eq)) is not None: viol = 'value-differs'; cond = z3.Not(eq)
     elif t['mode'] == 'short':
         got = bytes(st['short'].items); want = t['id'].split('/', 1)[-1].encode()
         s['short'] = got.decode(); s['want'] = want.decode()
@@ -114,6 +170,12 @@ def post(ex, t, r):
         m = ex.model()
     except Infeasible:
         return None
+    if st.get('rt'):
+        cz = Concretizer(ex, m)
+        s['orig'] = cz.value(st['orig'])
+        s['native_case'] = {'api': 'zinc_roundtrip' if t['codec'] == 'zinc' else 'json_roundtrip', 'v': s['orig']}
+        s['viol'] = viol
+        return s
     if 'text' in st:
         txt = bytes((conc_value(m.eval(b, model_completion=True)) if is_sym(b) else b) & 0xff for b in st['text'])
         s['text'] = txt.hex()
@@ -138,9 +200,33 @@ def run(ctx):
     S = sym.explore_templates(ctx, __import__('props.C06', fromlist=['x']), T, prog, split_depth=4, budget_s=240 if ctx.quick() else 900)
     sym.native_check(ctx, S)
     ctx.cov['path_kinds'] = dict(collections.Counter(s['kind'] for s in S))
-    mism = 0; validated = 0; unsup = collections.Counter()
+    mism = 0; validated = 0; unsup = collections.Counter(); lifted = {}
     for s in S:
         if s['kind'] == 'unsupported': unsup[(s.get('template', '?') + ': ' + s['detail'])[:110]] += 1; continue
+        if s['mode'] == 'rt':
+            # natively the witness uses the REAL rule table: the solver's offset is generally not the real one, so the native
+            # replay re-zones the instant (vj 'dt' is instant + zone id) and must round-trip too
+            n = s.get('native') or {}
+            same = n.get('same') if 'same' in n else (n.get('ok') is not None and json.dumps(n.get('ok'), sort_keys=True) == json.dumps(n.get('orig', n.get('ok')), sort_keys=True))
+            if s.get('viol') and same and 'err' not in n and 'panic' not in n:
+                # lift: the same round trip at the seconds around the zone's real transitions
+                zone = s['template'].split(':')[1]; api = s['native_case']['api']
+                cases = [{'api': api, 'v': {'t': 'dt', 'secs': T + d, 'ns': 0, 'off': 0, 'tz': zone}} for T in TRANSITIONS.get(zone, []) for d in (-3600, -1800, -1, 0, 1, 1799, 1800, 3599, 3600)]
+                key = (api, zone)
+                if key not in lifted: lifted[key] = native.run_cases(native.build(), cases) if cases else []
+                for c, r2 in zip(cases, lifted[key]):
+                    if r2.get('same') is False or 'err' in r2 or 'panic' in r2:
+                        n = r2; same = False; s = dict(s, orig=c['v'], native_case=c); break
+            if s.get('viol'):
+                if not same or 'err' in n or 'panic' in n:
+                    ctx.report('time.roundtrip:%s' % s['template'].split(':')[0], '%s in zone %s does not survive the %s round trip (%s)' % (json.dumps(s['orig']), s['template'].split(':')[1], s['template'].split(':')[0][3:], s['viol']), case=s['native_case'])
+                else:
+                    mism += 1; print('MODEL-MISMATCH %s: mirsym %s, native round trip holds for %s' % (s['template'], s['viol'], json.dumps(s['orig'])))
+            elif 'ok' in n and same is not False: validated += 1
+            else:
+                # the symbolic verdict says the round trip holds for every rule table; the real table must agree
+                ctx.report('time.roundtrip-native:%s' % s['template'].split(':')[0], 'native %s round trip of %s fails: %s' % (s['template'], json.dumps(s['orig']), json.dumps(n)[:200]), case=s['native_case'])
+            continue
         if s['mode'] == 'short':
             if s.get('viol'): ctx.report('time.short-name:' + s['template'], 'timezone_short_name gives %r, expected %r' % (s.get('short'), s.get('want')))
             continue
